@@ -1,7 +1,9 @@
 /-
-UTF-8 lemmas for GrcovModel/Regex/Match.lean: `decode` inverts `enc` on scalar values.
+UTF-8 lemmas for GrcovModel/Regex/Match.lean: `decode` inverts `enc` on scalar values; a text that
+decodes still decodes when cut at an ASCII byte (so every line of a UTF-8 file is UTF-8).
 -/
 import GrcovModel.Regex.Match
+import Mathlib.Tactic.SplitIfs
 namespace Grcov.Regex
 
 theorem decode_enc_append (c : Nat) (hc : isScalar c = true) (r : Bytes) :
@@ -68,4 +70,303 @@ theorem encAll_ascii (cs : Chars) (h : ∀ c ∈ cs, c < 128) : encAll cs = cs :
 theorem isScalar_of_lt {c : Nat} (h : c < 128) : isScalar c = true := by
   simp [isScalar]; omega
 
+/-! ### an ASCII byte is never inside a char -/
+
+theorem isCont_ascii {x : Nat} (hx : x < 128) : isCont x = false := by
+  simp [isCont]; omega
+
+theorem decode_cons_ascii (b0 : Nat) (r : Bytes) (h : b0 < 128) :
+    decode (b0 :: r) = (decode r).map (List.cons b0) := by
+  rw [decode.eq_def]; simp [h]
+
+/-- the lead byte says how many bytes the char has -/
+def leadLen (b0 : Nat) : Nat :=
+  if b0 < 128 then 1 else if 194 ≤ b0 ∧ b0 ≤ 223 then 2 else if 224 ≤ b0 ∧ b0 ≤ 239 then 3
+  else if 240 ≤ b0 ∧ b0 ≤ 244 then 4 else 0
+
+theorem decode_bad_lead (b0 : Nat) (r : Bytes) (h : leadLen b0 = 0) : decode (b0 :: r) = none := by
+  unfold leadLen at h
+  rw [decode.eq_def]
+  split_ifs at h with h1 h2 h3 h4 <;> first | omega | simp [*]
+
+theorem decode_2 (b0 b1 : Nat) (r : Bytes) (h : leadLen b0 = 2) :
+    decode (b0 :: b1 :: r) = if isCont b1 then (decode r).map (List.cons ((b0 - 192) * 64 + (b1 - 128))) else none := by
+  unfold leadLen at h
+  rw [decode.eq_def]
+  split_ifs at h with h1 h2 h3 h4 <;> first | omega | simp [*]
+
+theorem decode_2_short (b0 : Nat) (h : leadLen b0 = 2) : decode [b0] = none := by
+  unfold leadLen at h
+  rw [decode.eq_def]
+  split_ifs at h with h1 h2 h3 h4 <;> first | omega | simp [*]
+
+theorem decode_3 (b0 b1 b2 : Nat) (r : Bytes) (h : leadLen b0 = 3) :
+    decode (b0 :: b1 :: b2 :: r) =
+      if isCont b1 && isCont b2 && (b0 != 224 || 160 ≤ b1) && (b0 != 237 || b1 ≤ 159) then
+        (decode r).map (List.cons ((b0 - 224) * 4096 + (b1 - 128) * 64 + (b2 - 128))) else none := by
+  unfold leadLen at h
+  rw [decode.eq_def]
+  split_ifs at h with h1 h2 h3 h4 <;> first | omega | simp [*]
+
+theorem decode_3_short (b0 : Nat) (r : Bytes) (h : leadLen b0 = 3) (hr : r.length < 2) :
+    decode (b0 :: r) = none := by
+  unfold leadLen at h
+  rw [decode.eq_def]
+  split_ifs at h with h1 h2 h3 h4 <;> try omega
+  rcases r with _ | ⟨b1, _ | ⟨b2, r2⟩⟩
+  · simp [*]
+  · simp [*]
+  · simp at hr; omega
+
+theorem decode_4 (b0 b1 b2 b3 : Nat) (r : Bytes) (h : leadLen b0 = 4) :
+    decode (b0 :: b1 :: b2 :: b3 :: r) =
+      if isCont b1 && isCont b2 && isCont b3 && (b0 != 240 || 144 ≤ b1) && (b0 != 244 || b1 ≤ 143) then
+        (decode r).map (List.cons ((b0 - 240) * 262144 + (b1 - 128) * 4096 + (b2 - 128) * 64 + (b3 - 128)))
+      else none := by
+  unfold leadLen at h
+  rw [decode.eq_def]
+  split_ifs at h with h1 h2 h3 h4 <;> first | omega | simp [*]
+
+theorem decode_4_short (b0 : Nat) (r : Bytes) (h : leadLen b0 = 4) (hr : r.length < 3) :
+    decode (b0 :: r) = none := by
+  unfold leadLen at h
+  rw [decode.eq_def]
+  split_ifs at h with h1 h2 h3 h4 <;> try omega
+  rcases r with _ | ⟨b1, _ | ⟨b2, _ | ⟨b3, r3⟩⟩⟩
+  · simp [*]
+  · simp [*]
+  · simp [*]
+  · simp at hr; omega
+
+theorem leadLen_cases (b0 : Nat) :
+    (b0 < 128 ∧ leadLen b0 = 1) ∨ leadLen b0 = 0 ∨ leadLen b0 = 2 ∨ leadLen b0 = 3 ∨ leadLen b0 = 4 := by
+  unfold leadLen
+  split_ifs <;> simp_all
+
+/-- an ASCII byte never sits inside a char: a text decodes iff the parts before and after it do -/
+theorem decode_split_ascii : ∀ (n : Nat) (a : Bytes), a.length ≤ n → ∀ (x : Nat), x < 128 → ∀ b : Bytes,
+    (decode (a ++ x :: b)).isSome = true → (decode a).isSome = true ∧ (decode b).isSome = true
+  | _, [], _, x, hx, b, h => by
+    rw [List.nil_append, decode_cons_ascii x b hx] at h
+    refine ⟨rfl, by simpa using h⟩
+  | 0, _ :: _, hl, _, _, _, _ => by simp at hl
+  | n + 1, b0 :: r, hl, x, hx, b, h => by
+    have hc := isCont_ascii hx
+    simp only [List.length_cons] at hl
+    rw [List.cons_append] at h
+    rcases leadLen_cases b0 with ⟨h1, _⟩ | h0 | h2 | h3 | h4
+    · rw [decode_cons_ascii _ _ h1] at h
+      have := decode_split_ascii n r (by omega) x hx b (by simpa using h)
+      rw [decode_cons_ascii _ _ h1]
+      simpa using this
+    · rw [decode_bad_lead _ _ h0] at h; cases h
+    · match r, hl with
+      | [], _ => rw [List.nil_append, decode_2 _ _ _ h2, hc] at h; cases h
+      | b1 :: r1, hl =>
+        rw [List.cons_append, decode_2 _ _ _ h2] at h
+        rw [decode_2 _ _ _ h2]
+        by_cases c1 : isCont b1 = true
+        · simp only [c1, if_true] at h ⊢
+          simp only [List.length_cons] at hl
+          have := decode_split_ascii n r1 (by omega) x hx b (by simpa using h)
+          simpa using this
+        · simp [c1] at h
+    · match r, hl with
+      | [], _ =>
+        rcases b with _ | ⟨b2, b'⟩
+        · rw [List.nil_append, decode_3_short _ _ h3 (by simp)] at h; cases h
+        · rw [List.nil_append, decode_3 _ _ _ _ h3, hc] at h; simp at h
+      | [b1], _ =>
+        rw [List.cons_append, List.nil_append, decode_3 _ _ _ _ h3, hc] at h; simp at h
+      | b1 :: b2 :: r2, hl =>
+        rw [List.cons_append, List.cons_append, decode_3 _ _ _ _ h3] at h
+        rw [decode_3 _ _ _ _ h3]
+        split_ifs at h ⊢ with c1
+        · simp only [List.length_cons] at hl
+          have := decode_split_ascii n r2 (by omega) x hx b (by simpa using h)
+          simpa using this
+        · cases h
+    · match r, hl with
+      | [], _ =>
+        rcases b with _ | ⟨b2, _ | ⟨b3, b''⟩⟩
+        · rw [List.nil_append, decode_4_short _ _ h4 (by simp)] at h; cases h
+        · rw [List.nil_append, decode_4_short _ _ h4 (by simp)] at h; cases h
+        · rw [List.nil_append, decode_4 _ _ _ _ _ h4, hc] at h; simp at h
+      | [b1], _ =>
+        rcases b with _ | ⟨b3, b''⟩
+        · rw [List.cons_append, List.nil_append, decode_4_short _ _ h4 (by simp)] at h; cases h
+        · rw [List.cons_append, List.nil_append, decode_4 _ _ _ _ _ h4, hc] at h; simp at h
+      | [b1, b2], _ =>
+        rw [List.cons_append, List.cons_append, List.nil_append, decode_4 _ _ _ _ _ h4, hc] at h; simp at h
+      | b1 :: b2 :: b3 :: r3, hl =>
+        rw [List.cons_append, List.cons_append, List.cons_append, decode_4 _ _ _ _ _ h4] at h
+        rw [decode_4 _ _ _ _ _ h4]
+        split_ifs at h ⊢ with c1
+        · simp only [List.length_cons] at hl
+          have := decode_split_ascii n r3 (by omega) x hx b (by simpa using h)
+          simpa using this
+        · cases h
+
+theorem decode_isSome_split (a : Bytes) (x : Nat) (hx : x < 128) (b : Bytes)
+    (h : (decode (a ++ x :: b)).isSome = true) : (decode a).isSome = true ∧ (decode b).isSome = true :=
+  decode_split_ascii a.length a (Nat.le_refl _) x hx b h
+
+/-! ### `decode` is injective; ASCII texts inside UTF-8 -/
+
+theorem enc_ge (c : Nat) (hc : 128 ≤ c) : ∀ b ∈ enc c, 128 ≤ b := by
+  intro b hb
+  unfold enc at hb
+  split_ifs at hb <;> simp at hb <;> omega
+
+theorem enc_ne_nil (c : Nat) : enc c ≠ [] := by
+  unfold enc; split_ifs <;> simp
+
+/-- `decode` is injective: the text is the encoding of what it decodes to -/
+theorem decode_inv : ∀ (n : Nat) (l : Bytes), l.length ≤ n → ∀ cs, decode l = some cs → encAll cs = l
+  | _, [], _, cs, h => by
+    simp [decode] at h; subst h; rfl
+  | 0, _ :: _, hl, _, _ => by simp at hl
+  | n + 1, b0 :: r, hl, cs, h => by
+    simp only [List.length_cons] at hl
+    rcases leadLen_cases b0 with ⟨h1, _⟩ | h0 | h2 | h3 | h4
+    · rw [decode_cons_ascii _ _ h1] at h
+      obtain ⟨cs', hd, rfl⟩ := Option.map_eq_some_iff.1 h
+      have := decode_inv n r (by omega) cs' hd
+      simp [encAll, enc, h1] at this ⊢
+      exact this
+    · rw [decode_bad_lead _ _ h0] at h; cases h
+    · have hb : 194 ≤ b0 ∧ b0 ≤ 223 := by
+        unfold leadLen at h2; split_ifs at h2 <;> omega
+      match r, hl with
+      | [], _ => rw [decode_2_short _ h2] at h; cases h
+      | b1 :: r1, hl =>
+        rw [decode_2 _ _ _ h2] at h
+        split_ifs at h with c1
+        obtain ⟨cs', hd, rfl⟩ := Option.map_eq_some_iff.1 h
+        simp only [List.length_cons] at hl
+        have ih := decode_inv n r1 (by omega) cs' hd
+        simp only [isCont, Bool.and_eq_true, decide_eq_true_eq] at c1
+        have e : enc ((b0 - 192) * 64 + (b1 - 128)) = [b0, b1] := by
+          unfold enc
+          have a1 : ¬ ((b0 - 192) * 64 + (b1 - 128) < 128) := by omega
+          have a2 : (b0 - 192) * 64 + (b1 - 128) < 2048 := by omega
+          simp only [a1, a2, if_false, if_true]
+          have e1 : 192 + ((b0 - 192) * 64 + (b1 - 128)) / 64 = b0 := by omega
+          have e2 : 128 + ((b0 - 192) * 64 + (b1 - 128)) % 64 = b1 := by omega
+          rw [e1, e2]
+        simp only [encAll, List.flatMap_cons] at ih ⊢
+        rw [e, ih]; rfl
+    · have hb : 224 ≤ b0 ∧ b0 ≤ 239 := by
+        unfold leadLen at h3; split_ifs at h3 <;> omega
+      match r, hl with
+      | [], _ => rw [decode_3_short _ _ h3 (by simp)] at h; cases h
+      | [b1], _ => rw [decode_3_short _ _ h3 (by simp)] at h; cases h
+      | b1 :: b2 :: r2, hl =>
+        rw [decode_3 _ _ _ _ h3] at h
+        split_ifs at h with c1
+        obtain ⟨cs', hd, rfl⟩ := Option.map_eq_some_iff.1 h
+        simp only [List.length_cons] at hl
+        have ih := decode_inv n r2 (by omega) cs' hd
+        simp only [isCont, Bool.and_eq_true, Bool.or_eq_true, decide_eq_true_eq, bne_iff_ne, ne_eq] at c1
+        have e : enc ((b0 - 224) * 4096 + (b1 - 128) * 64 + (b2 - 128)) = [b0, b1, b2] := by
+          unfold enc
+          have a1 : ¬ ((b0 - 224) * 4096 + (b1 - 128) * 64 + (b2 - 128) < 128) := by omega
+          have a2 : ¬ ((b0 - 224) * 4096 + (b1 - 128) * 64 + (b2 - 128) < 2048) := by omega
+          have a3 : (b0 - 224) * 4096 + (b1 - 128) * 64 + (b2 - 128) < 65536 := by omega
+          simp only [a1, a2, a3, if_false, if_true]
+          have e1 : 224 + ((b0 - 224) * 4096 + (b1 - 128) * 64 + (b2 - 128)) / 4096 = b0 := by omega
+          have e2 : 128 + ((b0 - 224) * 4096 + (b1 - 128) * 64 + (b2 - 128)) / 64 % 64 = b1 := by omega
+          have e3 : 128 + ((b0 - 224) * 4096 + (b1 - 128) * 64 + (b2 - 128)) % 64 = b2 := by omega
+          rw [e1, e2, e3]
+        simp only [encAll, List.flatMap_cons] at ih ⊢
+        rw [e, ih]; rfl
+    · have hb : 240 ≤ b0 ∧ b0 ≤ 244 := by
+        unfold leadLen at h4; split_ifs at h4 <;> omega
+      match r, hl with
+      | [], _ => rw [decode_4_short _ _ h4 (by simp)] at h; cases h
+      | [b1], _ => rw [decode_4_short _ _ h4 (by simp)] at h; cases h
+      | [b1, b2], _ => rw [decode_4_short _ _ h4 (by simp)] at h; cases h
+      | b1 :: b2 :: b3 :: r3, hl =>
+        rw [decode_4 _ _ _ _ _ h4] at h
+        split_ifs at h with c1
+        obtain ⟨cs', hd, rfl⟩ := Option.map_eq_some_iff.1 h
+        simp only [List.length_cons] at hl
+        have ih := decode_inv n r3 (by omega) cs' hd
+        simp only [isCont, Bool.and_eq_true, Bool.or_eq_true, decide_eq_true_eq, bne_iff_ne, ne_eq] at c1
+        have e : enc ((b0 - 240) * 262144 + (b1 - 128) * 4096 + (b2 - 128) * 64 + (b3 - 128)) = [b0, b1, b2, b3] := by
+          unfold enc
+          have a1 : ¬ ((b0 - 240) * 262144 + (b1 - 128) * 4096 + (b2 - 128) * 64 + (b3 - 128) < 128) := by omega
+          have a2 : ¬ ((b0 - 240) * 262144 + (b1 - 128) * 4096 + (b2 - 128) * 64 + (b3 - 128) < 2048) := by omega
+          have a3 : ¬ ((b0 - 240) * 262144 + (b1 - 128) * 4096 + (b2 - 128) * 64 + (b3 - 128) < 65536) := by omega
+          simp only [a1, a2, a3, if_false]
+          have e1 : 240 + ((b0 - 240) * 262144 + (b1 - 128) * 4096 + (b2 - 128) * 64 + (b3 - 128)) / 262144 = b0 := by omega
+          have e2 : 128 + ((b0 - 240) * 262144 + (b1 - 128) * 4096 + (b2 - 128) * 64 + (b3 - 128)) / 4096 % 64 = b1 := by omega
+          have e3 : 128 + ((b0 - 240) * 262144 + (b1 - 128) * 4096 + (b2 - 128) * 64 + (b3 - 128)) / 64 % 64 = b2 := by omega
+          have e4 : 128 + ((b0 - 240) * 262144 + (b1 - 128) * 4096 + (b2 - 128) * 64 + (b3 - 128)) % 64 = b3 := by omega
+          rw [e1, e2, e3, e4]
+        simp only [encAll, List.flatMap_cons] at ih ⊢
+        rw [e, ih]; rfl
+
+theorem decode_eq_some_iff (l : Bytes) (cs : Chars) (h : decode l = some cs) : encAll cs = l :=
+  decode_inv l.length l (Nat.le_refl _) cs h
+
+/-! ### an ASCII text occurs in the bytes iff it occurs in the chars -/
+
+theorem encAll_cons (c : Nat) (cs : Chars) : encAll (c :: cs) = enc c ++ encAll cs := by simp [encAll]
+
+theorem enc_ascii (c : Nat) (h : c < 128) : enc c = [c] := by simp [enc, h]
+
+theorem prefix_enc_ascii : ∀ (p : Bytes), (∀ b ∈ p, b < 128) → ∀ cs : Chars, p <+: encAll cs ↔ p <+: cs
+  | [], _, _ => by simp
+  | a :: p', hp, [] => by simp [encAll]
+  | a :: p', hp, c :: t => by
+    have ha : a < 128 := hp a (by simp)
+    rw [encAll_cons]
+    by_cases hc : c < 128
+    · rw [enc_ascii c hc, List.singleton_append, List.cons_prefix_cons, List.cons_prefix_cons,
+        prefix_enc_ascii p' (fun b hb => hp b (by simp [hb])) t]
+    · have hge := enc_ge c (by omega)
+      have hne := enc_ne_nil c
+      cases he : enc c with
+      | nil => exact absurd he hne
+      | cons b0 rest =>
+        have hb0 : 128 ≤ b0 := hge b0 (by rw [he]; simp)
+        rw [List.cons_append, List.cons_prefix_cons, List.cons_prefix_cons]
+        constructor
+        · rintro ⟨e, _⟩; omega
+        · rintro ⟨e, _⟩; omega
+
+/-- bytes `≥ 128` in front cannot host the start of an ASCII text -/
+theorem infix_append_high (a : Nat) (p' : Bytes) (ha : a < 128) : ∀ (X : Bytes), (∀ b ∈ X, 128 ≤ b) →
+    ∀ Y : Bytes, a :: p' <:+: X ++ Y ↔ a :: p' <:+: Y
+  | [], _, Y => by simp
+  | x :: X', hX, Y => by
+    have hx : 128 ≤ x := hX x (by simp)
+    rw [List.cons_append, List.infix_cons_iff, infix_append_high a p' ha X' (fun b hb => hX b (by simp [hb])) Y]
+    constructor
+    · rintro (hpre | h)
+      · have := (List.cons_prefix_cons.1 hpre).1; omega
+      · exact h
+    · exact Or.inr
+
+theorem infix_enc_ascii : ∀ (p : Bytes), (∀ b ∈ p, b < 128) → ∀ cs : Chars, p <:+: encAll cs ↔ p <:+: cs
+  | [], _, _ => by simp
+  | a :: p', hp, [] => by simp [encAll]
+  | a :: p', hp, c :: t => by
+    have ha : a < 128 := hp a (by simp)
+    have ih := infix_enc_ascii (a :: p') hp t
+    rw [encAll_cons]
+    by_cases hc : c < 128
+    · rw [enc_ascii c hc, List.singleton_append, List.infix_cons_iff, List.infix_cons_iff, ih]
+      have := prefix_enc_ascii (a :: p') hp (c :: t)
+      rw [encAll_cons, enc_ascii c hc, List.singleton_append] at this
+      rw [this]
+    · rw [infix_append_high a p' ha (enc c) (enc_ge c (by omega)), ih, List.infix_cons_iff]
+      constructor
+      · exact Or.inr
+      · rintro (hpre | h)
+        · have := (List.cons_prefix_cons.1 hpre).1; omega
+        · exact h
+
 end Grcov.Regex
+
